@@ -1224,6 +1224,9 @@ def relay_bool_case(ctx, model, r):
         r2, _ = c01.check_case(small)
         ctx.fail("bus:" + res[0], dict(small, kind="bus"), (r2 or res)[1])
         return
+    if getattr(left, "too_big", False):      # the real run was cut off at the call cap (as in C01.one_case): nothing to compare
+        ctx.count("skipped_too_big")
+        return
     if model is not None:
         ctx.compare(dict(case, kind="bus"), [c01.show_trace(tr) for tr in per], c01.run_model(BusModel(model), case))
 
